@@ -40,7 +40,7 @@ use serde::{Deserialize, Serialize};
 use serde_json::{Value, json};
 use std::collections::BTreeMap;
 
-const BASES: [&str; 3] = ["btc", "eth", "sol"];
+const BASES: [&str; 8] = ["btc", "eth", "sol", "xrp", "ada", "doge", "ltc", "1inch"];
 const ID_BASE: u64 = 1000;
 
 #[derive(Debug, Clone, Copy, PartialEq, Eq, Serialize, Deserialize)]
@@ -81,6 +81,12 @@ pub struct L2Case {
     pub interleave: Vec<u8>,
     /// deliver a message for an unsubscribed symbol after this many deliveries
     pub unknown_symbol_after: Option<u8>,
+    /// which symbols the instruments are (offset into the pool) and in which order the initial
+    /// snapshots are handed to the transformer (selector into the permutations)
+    #[serde(default)]
+    pub names: u8,
+    #[serde(default)]
+    pub snapshot_order: u8,
 }
 
 type Book = (BTreeMap<Decimal, Decimal>, BTreeMap<Decimal, Decimal>);
@@ -286,8 +292,8 @@ impl Check for BinanceL2Stream {
 
 
     fn strategy(_tier: Tier) -> BoxedStrategy<L2Case> {
-        (any::<bool>(), prop::collection::vec(venue(), 2..=3), prop::collection::vec(any::<u8>(), 0..80), prop::option::weighted(0.3, 0u8..20))
-            .prop_map(|(futures, venues, interleave, unknown_symbol_after)| L2Case { futures, venues, interleave, unknown_symbol_after })
+        (any::<bool>(), prop::collection::vec(venue(), 2..=3), prop::collection::vec(any::<u8>(), 0..80), prop::option::weighted(0.3, 0u8..20), (0u8..8, 0u8..6))
+            .prop_map(|(futures, venues, interleave, unknown_symbol_after, (names, snapshot_order))| L2Case { futures, venues, interleave, unknown_symbol_after, names, snapshot_order })
             .boxed()
     }
 
@@ -299,12 +305,13 @@ impl Check for BinanceL2Stream {
         let futures = case.futures;
         let n = case.venues.len().min(3);
         let sims: Vec<Sim> = case.venues.iter().take(n).map(|v| simulate(v, futures)).collect();
-        let symbols: Vec<String> = (0..n).map(|i| format!("{}USDT", BASES[i].to_uppercase())).collect();
+        let base = |i: usize| BASES[(case.names as usize + i) % BASES.len()];
+        let symbols: Vec<String> = (0..n).map(|i| format!("{}USDT", base(i).to_uppercase())).collect();
         let exchange = if futures { ExchangeId::BinanceFuturesUsd } else { ExchangeId::BinanceSpot };
 
         // ---- subscription side: mapper-generated ids; snapshots through the connector's own types ---
         let kind = if futures { MarketDataInstrumentKind::Perpetual } else { MarketDataInstrumentKind::Spot };
-        let instruments: Vec<Keyed<u8, MarketDataInstrument>> = (0..n).map(|i| Keyed::new(i as u8, MarketDataInstrument::from((BASES[i], "usdt", kind.clone())))).collect();
+        let instruments: Vec<Keyed<u8, MarketDataInstrument>> = (0..n).map(|i| Keyed::new(i as u8, MarketDataInstrument::from((base(i), "usdt", kind.clone())))).collect();
         let mut local: Vec<OrderBook> = Vec::new();
         let mut snapshots: Vec<MarketEvent<u8, OrderBookEvent>> = Vec::new();
         for (i, s) in sims.iter().enumerate() {
@@ -323,6 +330,10 @@ impl Check for BinanceL2Stream {
             local.push(book);
             snapshots.push(ev);
         }
+        // the snapshots are matched to the subscriptions by instrument key: any order will do
+        const PERMS: [[usize; 3]; 6] = [[0, 1, 2], [0, 2, 1], [1, 0, 2], [1, 2, 0], [2, 0, 1], [2, 1, 0]];
+        let perm = PERMS[case.snapshot_order as usize % 6];
+        let snapshots: Vec<MarketEvent<u8, OrderBookEvent>> = perm.iter().filter(|i| **i < n).map(|i| snapshots[*i].clone()).collect();
         let (ws_tx, _ws_rx) = tokio::sync::mpsc::unbounded_channel();
         let mut tx = if futures {
             let subs: Vec<Subscription<BinanceFuturesUsd, Keyed<u8, MarketDataInstrument>, OrderBooksL2>> = instruments.iter().map(|k| Subscription::new(BinanceFuturesUsd::default(), k.clone(), OrderBooksL2)).collect();
@@ -357,7 +368,7 @@ impl Check for BinanceL2Stream {
                     unknown_done = true;
                     let m = Msg { first: 1, last: 2, prev_last: 0, bids: vec![(price_of(1), Decimal::ONE)], asks: vec![] };
                     let before = local.clone();
-                    let out = match tx.feed(&msg_json("DOGEUSDT", &m, futures, 9_999)) {
+                    let out = match tx.feed(&msg_json("PEPEUSDT", &m, futures, 9_999)) {
                         Ok(o) => o,
                         Err(e) => bad!("payload-parse", "{e}"),
                     };
@@ -476,7 +487,7 @@ impl Check for BinanceL2Stream {
 }
 
 pub fn run(ctx: &mut Ctx) {
-    ctx.rule = "binance_l2_stream: spot or USD-futures rule set; 2..3 instruments on one connection, each a simulated venue of 0..23 atomic changes (12-price grid, 30% deletes) grouped into messages of 1..4 changes with absolute amounts; snapshot at any id (inside or at the edge of a message); delivery starts 0..3 messages early (older messages included) or 1..3 late, and is perturbed by drop / duplicate / adjacent swap / replay of an old prefix (half of the venues) or left clean; instruments interleaved; optional message for an unsubscribed symbol. non-trivial = a perturbed instrument with >= 1 message admitted before the break, or a clean instrument with >= 1 stale prefix message and the snapshot strictly inside a message; distinct by hash of the case.".into();
+    ctx.rule = "binance_l2_stream: spot or USD-futures rule set; 2..3 instruments on one connection (symbols from a pool of 8, initial snapshots handed over in a generated order), each a simulated venue of 0..23 atomic changes (12-price grid, 30% deletes) grouped into messages of 1..4 changes with absolute amounts; snapshot at any id (inside or at the edge of a message); delivery starts 0..3 messages early (older messages included) or 1..3 late, and is perturbed by drop / duplicate / adjacent swap / replay of an old prefix (half of the venues) or left clean; instruments interleaved; optional message for an unsubscribed symbol. non-trivial = a perturbed instrument with >= 1 message admitted before the break, or a clean instrument with >= 1 stale prefix message and the snapshot strictly inside a message; distinct by hash of the case.".into();
     ctx.assumptions = vec![
         "venue behaviour as published: consecutive update ids, diff messages carry absolute quantities, futures messages carry pu = previous message's u; futures snapshots lie inside a message's id range".into(),
         "payloads are synthesised in the venue's documented JSON shape and parsed by the connector's own Deserialize impls".into(),
